@@ -61,7 +61,7 @@ def draw(desc: dict, mode: str, modes: list[str], n: int, seed: int) -> dict:
         out["op"] = op_decl
         operation = schemathesis.openapi.from_dict(raw)[path][method]
         gm = {"positive": GenerationMode.POSITIVE, "negative": GenerationMode.NEGATIVE}
-        config = GenerationConfig(modes=[gm[m] for m in modes], allow_x00=bool(cfg["allow_x00"]), codec=cfg["codec"],
+        config = GenerationConfig(modes=[gm[m] for m in modes], allow_x00=bool(cfg["allow_x00"]), codec=None if cfg["codec"] == "none" else cfg["codec"],
                                   with_security_parameters=bool(cfg.get("security")))
         kwargs: dict = {}
         if cfg.get("explicit"):     # the caller fixes q1 (a conforming value); the rest of the location must be generated around it
@@ -140,7 +140,7 @@ def kw_detail(detail: Any) -> dict:
 
 
 def part_detail(detail: Any) -> list:
-    return [t for t in _detail_set(detail) if isinstance(t, list) and len(t) == 3 and t[0] not in ("kw", "case")]
+    return [t for t in _detail_set(detail) if isinstance(t, list) and len(t) == 3 and t[0] not in ("kw", "case", "txt")]
 
 
 def signature(rule: str, detail: Any, desc: dict) -> str:
@@ -157,7 +157,12 @@ def signature(rule: str, detail: Any, desc: dict) -> str:
         return "C01:does-not-conform:{%s}%s:%s" % (",".join(kws), missing, feat)
     if rule in ("nul-character", "outside-codec"):
         cfg = desc.get("cfg") or {}
-        return "C01:%s:allow_x00=%s,codec=%s" % (rule, cfg.get("allow_x00"), cfg.get("codec"))
+        want = "nul" if rule == "nul-character" else "codec"
+        where = sorted({t[1] for t in _detail_set(detail) if isinstance(t, list) and len(t) == 3 and t[0] == "txt" and t[2] == want})
+        # in the body (unconstrained additional properties) the restriction is lost inside hypothesis-jsonschema: the registered class;
+        # any other location is named
+        loc = "" if where in ([], ["body"]) else "+".join(w for w in where if w != "body") + ":"
+        return "C01:%s:%sallow_x00=%s,codec=%s" % (rule, loc, cfg.get("allow_x00"), cfg.get("codec"))
     if rule.startswith("satisfiable-but-"):
         return "C01:%s:%s" % (rule, primary(features(desc)))
     return "C01:%s" % rule
